@@ -58,7 +58,11 @@ def gen_frame(r, rich=False, nhosts=4):
   if k in ("udp", "tcp", "icmp", "ipother"):
     fs["tos"] = r.pick([0, 0, 0x10, 0xb8, 0xfc])
     if r.chance(0.15):
-      fs["frag"] = r.pick([[1, 0], [0, 5], [1, 5]])
+      fs["frag"] = r.pick([[1, 0], [1, 0], [0, 5], [1, 5]])
+      if fs["frag"] == [1, 0] and r.chance(0.6):
+        fs["fragcut"] = r.pick([8, 64, 1000])
+    elif r.chance(0.25):
+      fs["df"] = 1          # whole datagram, Don't-Fragment set
     if r.chance(0.15):
       fs["ipopts"] = r.pick(["01010101", "0101010101010101"])
     if k == "tcp" and r.chance(0.2):
